@@ -313,7 +313,12 @@ func c17One(r *fw.Run, c *c17Case, idx int) {
 	}
 	r.Count("goroutine_checks", 1)
 	// (3) reuse with a live context
-	ctx2, cancel2 := context.WithTimeout(context.Background(), 20*time.Second)
+	// a live context WITHOUT a deadline of its own (two cases out of three), so that nothing re-arms or clears what the
+	// previous operation may have left on the connection; the waits below are bounded by the harness' own timers
+	ctx2, cancel2 := context.WithCancel(context.Background())
+	if idx%3 == 2 {
+		ctx2, cancel2 = context.WithTimeout(context.Background(), 20*time.Second)
+	}
 	defer cancel2()
 	if isWrite {
 		select {
@@ -324,7 +329,9 @@ func c17One(r *fw.Run, c *c17Case, idx int) {
 			startPeerReader()
 		}
 		marker := []byte(fmt.Sprintf("\x00MARK-%d\x00", idx))
+		wd := time.AfterFunc(20*time.Second, cancel2)
 		n, werr := e.rw.Write(ctx2, marker)
+		wd.Stop()
 		if werr != nil || n != len(marker) {
 			report("reuse-failed", "a write with a live context after the cancelled one returned n=%d err=%v", n, werr)
 			return
